@@ -1,4 +1,4 @@
-package main
+package hx
 
 import (
 	"bytes"
@@ -91,7 +91,7 @@ func (m *MemEngine) hook(kind, path string, n int) error {
 	return nil
 }
 
-func key(u *storage.URI) string { return u.Path }
+func skey(u *storage.URI) string { return u.Path }
 
 func notExist(u *storage.URI) error { return fmt.Errorf("%s: %w", u, fs.ErrNotExist) }
 
@@ -104,12 +104,12 @@ func (r *memReader) Close() error         { return nil }
 func (r *memReader) Size() (int64, error) { return r.n, nil }
 
 func (m *MemEngine) Get(ctx context.Context, u *storage.URI) (storage.Reader, error) {
-	if err := m.hook("get", key(u), 0); err != nil {
+	if err := m.hook("get", skey(u), 0); err != nil {
 		return nil, err
 	}
 	m.mu.Lock()
 	defer m.mu.Unlock()
-	b, ok := m.files[key(u)]
+	b, ok := m.files[skey(u)]
 	if !ok {
 		return nil, notExist(u)
 	}
@@ -152,59 +152,59 @@ func (w *memWriter) Close() error {
 }
 
 func (m *MemEngine) Put(ctx context.Context, u *storage.URI) (io.WriteCloser, error) {
-	if err := m.hook("put", key(u), 0); err != nil {
+	if err := m.hook("put", skey(u), 0); err != nil {
 		return nil, err
 	}
 	if m.FileMode {
 		m.mu.Lock()
-		m.files[key(u)] = nil
+		m.files[skey(u)] = nil
 		m.mu.Unlock()
 	}
-	return &memWriter{m: m, path: key(u)}, nil
+	return &memWriter{m: m, path: skey(u)}, nil
 }
 
 func (m *MemEngine) PutIfNotExists(ctx context.Context, u *storage.URI, b []byte) error {
-	if err := m.hook("putx", key(u), len(b)); err != nil {
+	if err := m.hook("putx", skey(u), len(b)); err != nil {
 		return err
 	}
 	m.mu.Lock()
-	if _, ok := m.files[key(u)]; ok {
+	if _, ok := m.files[skey(u)]; ok {
 		m.mu.Unlock()
-		return &fs.PathError{Op: "open", Path: key(u), Err: fs.ErrExist}
+		return &fs.PathError{Op: "open", Path: skey(u), Err: fs.ErrExist}
 	}
 	if m.FileMode {
-		m.files[key(u)] = nil
+		m.files[skey(u)] = nil
 		m.mu.Unlock()
-		if err := m.hook("write", key(u), len(b)); err != nil {
+		if err := m.hook("write", skey(u), len(b)); err != nil {
 			return err
 		}
 		m.mu.Lock()
 	}
-	m.files[key(u)] = bytes.Clone(b)
+	m.files[skey(u)] = bytes.Clone(b)
 	m.mu.Unlock()
 	return nil
 }
 
 func (m *MemEngine) Delete(ctx context.Context, u *storage.URI) error {
-	if err := m.hook("delete", key(u), 0); err != nil {
+	if err := m.hook("delete", skey(u), 0); err != nil {
 		return err
 	}
 	m.mu.Lock()
 	defer m.mu.Unlock()
-	if _, ok := m.files[key(u)]; !ok {
+	if _, ok := m.files[skey(u)]; !ok {
 		return notExist(u)
 	}
-	delete(m.files, key(u))
+	delete(m.files, skey(u))
 	return nil
 }
 
 func (m *MemEngine) DeleteByPrefix(ctx context.Context, u *storage.URI) error {
-	if err := m.hook("delprefix", key(u), 0); err != nil {
+	if err := m.hook("delprefix", skey(u), 0); err != nil {
 		return err
 	}
 	m.mu.Lock()
 	defer m.mu.Unlock()
-	p := key(u)
+	p := skey(u)
 	for k := range m.files {
 		if k == p || strings.HasPrefix(k, strings.TrimSuffix(p, "/")+"/") {
 			delete(m.files, k)
@@ -214,16 +214,16 @@ func (m *MemEngine) DeleteByPrefix(ctx context.Context, u *storage.URI) error {
 }
 
 func (m *MemEngine) Exists(ctx context.Context, u *storage.URI) (bool, error) {
-	if err := m.hook("exists", key(u), 0); err != nil {
+	if err := m.hook("exists", skey(u), 0); err != nil {
 		return false, err
 	}
 	m.mu.Lock()
 	defer m.mu.Unlock()
-	if _, ok := m.files[key(u)]; ok {
+	if _, ok := m.files[skey(u)]; ok {
 		return true, nil
 	}
 	// directories exist when something lives under them
-	pre := strings.TrimSuffix(key(u), "/") + "/"
+	pre := strings.TrimSuffix(skey(u), "/") + "/"
 	for k := range m.files {
 		if strings.HasPrefix(k, pre) {
 			return true, nil
@@ -233,12 +233,12 @@ func (m *MemEngine) Exists(ctx context.Context, u *storage.URI) (bool, error) {
 }
 
 func (m *MemEngine) Size(ctx context.Context, u *storage.URI) (int64, error) {
-	if err := m.hook("size", key(u), 0); err != nil {
+	if err := m.hook("size", skey(u), 0); err != nil {
 		return 0, err
 	}
 	m.mu.Lock()
 	defer m.mu.Unlock()
-	b, ok := m.files[key(u)]
+	b, ok := m.files[skey(u)]
 	if !ok {
 		return 0, notExist(u)
 	}
@@ -246,12 +246,12 @@ func (m *MemEngine) Size(ctx context.Context, u *storage.URI) (int64, error) {
 }
 
 func (m *MemEngine) List(ctx context.Context, u *storage.URI) ([]storage.Info, error) {
-	if err := m.hook("list", key(u), 0); err != nil {
+	if err := m.hook("list", skey(u), 0); err != nil {
 		return nil, err
 	}
 	m.mu.Lock()
 	defer m.mu.Unlock()
-	pre := strings.TrimSuffix(key(u), "/") + "/"
+	pre := strings.TrimSuffix(skey(u), "/") + "/"
 	seen := map[string]int64{}
 	found := false
 	for k, v := range m.files {
